@@ -43,6 +43,7 @@ type FuncContract struct {
 	Atomic     bool
 	Unroll     map[int]int
 	Safe       map[string]bool
+	Axiomatic  []int        // 1-based indices of ensures clauses exported as quantified axioms where the (pure) function is applied inside contract expressions
 	Fresh      map[int]bool // result indices claimed to share no memory with inputs (ownership rule)
 	GhostVars  []SpecParam         // ghost variables: name, Go type
 	GhostCall  map[string][]Clause // callee text -> ghost assignments 'lhs = rhs' executed at each such call (after its callreq)
@@ -256,6 +257,14 @@ func (pc *PkgContracts) parseFile(path string) error {
 				}
 			case "inline":
 				cur.Inline = true
+			case "axiomatic":
+				for _, k := range strings.FieldsFunc(rest, func(r rune) bool { return r == ',' || r == ' ' }) {
+					var idx int
+					if _, err := fmt.Sscanf(k, "%d", &idx); err != nil || idx < 1 {
+						return fmt.Errorf("%s:%d: axiomatic wants ensures indices, got %q", path, l.line, k)
+					}
+					cur.Axiomatic = append(cur.Axiomatic, idx)
+				}
 			case "fresh":
 				for _, k := range strings.FieldsFunc(rest, func(r rune) bool { return r == ',' || r == ' ' }) {
 					idx := 0
